@@ -35,6 +35,26 @@ CLAIMS = {
             "Decides that after any failed block the code is again bisimilar to the reference from its initial state with "
             "the aborting mark pending, i.e. later blocks are parsed as on their own; earlier blocks are never touched.",
             "5 C04"),
+    "C06": ("abstract interpretation of writer.write over symbolic strings and linear integer forms (template extraction) "
+            "compared with the reference template of the BibtexFormat contract; option-liveness and index-predicate rules",
+            "Decides, for every library shape up to 5 blocks / 3 fields and every option setting (symbolic indent, separator, "
+            "comment, value_column symbolic / 'auto' / 0, trailing comma on/off), that the written text equals the contract "
+            "template piece by piece, padding as a linear form, 'auto' as a maximum over all keys, and that the format object "
+            "is left unchanged; uniformity of the index predicates extends the sizes.",
+            "5 C06"),
+    "C07": ("abstract interpretation of every shipped middleware's transform() in copy mode over a library holding every "
+            "block class: object-graph snapshot (mutation) and reachable-identity intersection (aliasing); flag forwarding; "
+            "exception copy-safety rule",
+            "Decides that no path of any shipped middleware in copy mode (and of write_string) stores into an object reachable "
+            "from its input or returns an object graph sharing a mutable object with it.",
+            "5 C07"),
+    "C20": ("abstract interpretation of the four entry points and BlockMiddleware.transform with probe middlewares, token "
+            "libraries, one-shot iterables and a modelled open(): data-flow / call-order comparison with the documented "
+            "composition",
+            "Decides stack composition and order, threading of the library, argument forwarding of the file wrappers "
+            "(encoding, stack, addition, format, path vs file object), single consumption of iterables, and the per-block "
+            "result protocol table, for all argument combinations.",
+            "5 C20"),
 }
 
 NOT_APPLICABLE = {
